@@ -1,0 +1,13 @@
+//go:build verif
+
+// Contracts for this plugin, checked by /verif/govc (comment-only file).
+
+package leasetime
+
+//@ func Handler4
+//@   implements handler.Handler4
+//@   modifies everything
+//@   ensures ret0 == resp && !ret1
+//@   ensures[C17:default-lease-time-when-unset] (req.OpCode == 1 && !old(has(resp.Options, 51))) ==> (has(resp.Options, 51) && resp.Options[51] == optenc(opt_dur(51, v4LeaseTime)))
+//@   ensures[C17:lease-time-kept-when-set] (req.OpCode != 1 || old(has(resp.Options, 51))) ==> ((has(resp.Options, 51) <==> old(has(resp.Options, 51))) && resp.Options[51] == old(resp.Options[51]))
+//@   ensures[C17:other-options-untouched] forall k uint8: k != 51 ==> ((has(resp.Options, k) <==> old(has(resp.Options, k))) && resp.Options[k] == old(resp.Options[k]))
